@@ -2,7 +2,7 @@
 import itertools
 import random
 
-from .gen import (KGRID, WBITS, ORD_CODECS, COMP_CODECS, MASK_CODECS, CodecInfo, Script,
+from .gen import (pick_K, KGRID, WBITS, ORD_CODECS, COMP_CODECS, MASK_CODECS, CodecInfo, Script,
                   boundary_lengths, pick_len, rand_codes, codes_to_bytes, rand_range, rand_sd,
                   window_sd)
 from .vm import SD
@@ -506,7 +506,7 @@ def gen_C02(rng, ci, tier):
     for it in range(scale(tier, 90, 1800)):
         s = Script(ci)
         w = rng.choice([0, 0, 0, 1, 2])
-        K = rng.choice(grid[w])
+        K = pick_K(rng, grid[w])
         codes = rand_codes(rng, ci, K)
         d = s.embed(rng, codes)
         s.add("kfrom", K, w, d)
@@ -570,7 +570,7 @@ def gen_C04(rng, ci, tier):
     for it in range(scale(tier, 80, 1500)):
         s = Script(ci)
         w = rng.choice([0, 0, 1, 2])
-        K = rng.choice(grid[w])
+        K = pick_K(rng, grid[w])
         codes = rand_codes(rng, ci, K)
         d = s.embed(rng, codes)
         s.add("kfrom", K, w, d)
@@ -709,7 +709,7 @@ def gen_C08(rng, ci, tier):
     grid = KGRID[ci.name]
     for it in range(scale(tier, 100, 2000)):
         s = Script(ci)
-        K = rng.choice(grid[0])
+        K = pick_K(rng, grid[0])
         n = rng.choice([0, 1, max(K - 1, 0), K, K + 1, K + 2, 2 * K, rng.randint(0, 3 * K + 5),
                         pick_len(rng, ci, 120)])
         codes = rand_codes(rng, ci, n)
@@ -728,7 +728,7 @@ def gen_C08(rng, ci, tier):
     for it in range(scale(tier, 100, 2000)):
         s = Script(ci)
         w = rng.choice([0, 1, 2])
-        K = rng.choice(grid[w])
+        K = pick_K(rng, grid[w])
         # construction from a slice succeeds exactly when the length is K
         n = rng.choice([K, K, K - 1, K + 1, 0, rng.randint(0, K + 3)])
         n = max(n, 0)
@@ -769,18 +769,18 @@ def gen_C09(rng, ci, tier):
     grid = KGRID[ci.name]
     rots = lambda K: [0, 1, K - 1, K, K + 1, 2 * K, 65535, 65536, 2 ** 32 - 1, rng.randint(0, 10 * K)]
 
-    def one(K, w, codes, nops):
+    def one(K, w, codes, nops, forced=None):
         s = Script(ci)
         d = s.embed(rng, codes)
         s.add("kfrom", K, w, d)
         cur = list(codes)
-        for _ in range(nops):
+        for i in range(nops):
             ops = ["rotl", "rotr", "pushl", "pushr"]
             if w == 0:
                 ops += ["rev", "torev"]
                 if ci.name == "dna":
                     ops += ["comp", "tocomp", "revcomp", "torevcomp"]
-            o = rng.choice(ops)
+            o = forced[i] if forced else rng.choice(ops)
             if o == "rotl":
                 n = rng.choice(rots(K)); s.add("krotl", n); n %= K; cur = cur[n:] + cur[:n]
             elif o == "rotr":
@@ -819,6 +819,15 @@ def gen_C09(rng, ci, tier):
             s.add("krotl", 1); s.add("kobs"); s.add("krotr", 1); s.add("kpushl", tup[0]); s.add("kobs")
             s.add("kpushr", tup[-1]); s.add("kobs")
             out.append(s.ops)
+    # every K of the usize grid x every whole-k-mer operation, at least once (a special case at one K,
+    # e.g. the k-mer that fills its word, must not depend on the draw)
+    for K in grid[0]:
+        whole = ["rev", "torev"] + (["comp", "tocomp", "revcomp", "torevcomp"] if ci.name == "dna" else [])
+        for o in whole:
+            out.append(one(K, 0, rand_codes(rng, ci, K), 1, forced=[o]))
+        for wch in (0, 1, 2):
+            if K in grid[wch]:
+                out.append(one(K, wch, rand_codes(rng, ci, K), 4, forced=["rotl", "pushl", "rotr", "pushr"]))
     for it in range(scale(tier, 150, 3000)):
         w = rng.choice([0, 0, 0, 1, 2])
         K = rng.choice(grid[w] if rng.random() < 0.6 else [grid[w][-1], grid[w][-2], grid[w][0]])
@@ -860,7 +869,7 @@ def gen_C10(rng, ci, tier):
         for it in range(scale(tier, 100, 2000)):
             s = Script(ci)
             w = rng.choice([0, 0, 1, 2])
-            K = rng.choice(grid[w])
+            K = pick_K(rng, grid[w])
             x = rand_codes(rng, ci, K)
             s.add("kint", K, w, val(x) & (2 ** 64 - 1), val(x) >> 64)
             for _ in range(4):
@@ -876,7 +885,7 @@ def gen_C10(rng, ci, tier):
         # minimisers
         for it in range(scale(tier, 50, 1000)):
             s = Script(ci)
-            K = rng.choice(grid[0])
+            K = pick_K(rng, grid[0])
             n = rng.choice([K - 1, K, K + 1, rng.randint(K, K + 40)])
             d = s.embed(rng, rand_codes(rng, ci, max(n, 0)))
             s.add("kmin", K, 0, d)
@@ -1192,7 +1201,7 @@ def gen_C18(rng, ci, tier):
     for it in range(scale(tier, 60, 1200)):
         s = Script(ci)
         w = rng.choice([0, 1, 2])
-        K = rng.choice(grid[w])
+        K = pick_K(rng, grid[w])
         codes = rand_codes(rng, ci, K)
         d = s.embed(rng, codes)
         s.add("kfrom", K, w, d)
